@@ -15,10 +15,10 @@ KNOWN_SYNC = "C06-sync-closer-stranded"
 def fd_oracle(prog, out):
     """kinds 1/2: judged from the implementation's own report (ok / open / res / wake mask)"""
     steps = [tuple(prog[i:i + 2]) for i in range(0, len(prog), 2)]
-    if len(out) != 4 * len(steps) + 1:
+    if len(out) != 5 * len(steps) + 1:
         return "malformed harness output"
     handles, ops = 1, 0
-    closers = []      # dict(state, is_close, polled, pending)
+    closers = []      # dict(state, is_close, polled, pending, gen = wakers given so far, pgen = waker of the last poll)
     first = None
     was_open = True
 
@@ -26,7 +26,7 @@ def fd_oracle(prog, out):
         return handles + ops + sum(1 for i, x in enumerate(closers) if i != c and x["state"] in ("fut", "got"))
 
     for k, (op, arg) in enumerate(steps):
-        ok, opn, res, wm = out[4 * k:4 * k + 4]
+        ok, opn, res, wm, wg = out[5 * k:5 * k + 5]
         if ok:
             if op == 1:
                 handles += 1
@@ -38,12 +38,13 @@ def fd_oracle(prog, out):
                 ops -= 1
             elif op in (5, 6):
                 handles -= 1
-                closers.append(dict(state="fut", is_close=(op == 6), polled=False, pending=False))
+                closers.append(dict(state="fut", is_close=(op == 6), polled=False, pending=False, gen=0, pgen=0))
             elif op == 7:
                 if arg >= len(closers) or closers[arg]["state"] != "fut":
                     return "step %d: poll of a future that does not exist reported as done" % k
                 x = closers[arg]
                 x["polled"] = True
+                x["pgen"] = x["gen"]
                 if first is None:
                     first = arg
                 if res == 0:
@@ -67,12 +68,14 @@ def fd_oracle(prog, out):
                 closers[arg]["state"] = "none"
             elif op == 9:
                 closers[arg]["state"] = "none"
+            elif op == 13:
+                closers[arg]["gen"] += 1
             elif op == 11:
                 if res == 1:
                     handles -= 1
                     if handles + ops + sum(1 for x in closers if x["state"] in ("fut", "got")) != 0:
                         return "step %d: try_unwrap succeeded while other owners exist" % k
-                    closers.append(dict(state="got", is_close=False, polled=False, pending=False))
+                    closers.append(dict(state="got", is_close=False, polled=False, pending=False, gen=0, pgen=0))
             if handles < 0 or ops < 0:
                 return "step %d: the harness reported an impossible step as done" % k
         if opn and not was_open:
@@ -90,9 +93,17 @@ def fd_oracle(prog, out):
         if first is not None and opn:
             x = closers[first]
             if (x["state"] == "fut" and x["pending"] and others(first) == 0
-                    and not any(y["state"] == "got" for y in closers) and not (wm >> first) & 1):
-                return ("step %d: the waiting take()/close() (future %d) is the only owner now but was not woken "
-                        "(it stays Pending for ever)" % (k, first))
+                    and not any(y["state"] == "got" for y in closers)):
+                woken_gen = ((wg >> (4 * first)) & 15) - 1
+                if woken_gen < 0:
+                    return ("step %d: the waiting take()/close() (future %d) is the only owner now but was not woken "
+                            "(it stays Pending for ever)" % (k, first))
+                if woken_gen != x["pgen"]:
+                    return ("step %d: the release woke waker %d of the waiting take()/close() (future %d), but its "
+                            "latest Pending poll ran under waker %d: the task now holding the future is never woken"
+                            % (k, woken_gen, first, x["pgen"]))
+                if x["pgen"] == x["gen"] and not (wm >> first) & 1:
+                    return "step %d: wake masks inconsistent" % k
     if out[-1] != 0:
         return "the descriptor is still open after every handle, operation and future was dropped (leaked)"
     return None
@@ -111,6 +122,30 @@ def accept_oracle(case, out):
     if out[-1] != 0:
         return ("%d descriptor(s) created by accept still open after the future, the stream, the listener's runtime "
                 "were all dropped (leaked)" % out[-1])
+    return None
+
+
+def multishot_oracle(case, out):
+    prog = case[2:]
+    if len(out) != 3 * len(prog) + 2:
+        return "malformed harness output"
+    conn = pulled = 0
+    for k, op in enumerate(prog):
+        ok, unheld, res = out[3 * k:3 * k + 3]
+        if op == 3 and ok:
+            conn += 1
+        if res == 1:
+            pulled += 1
+        if res == 2:
+            return "step %d: the incoming stream ended or failed" % k
+        if unheld > conn - pulled:
+            return ("step %d: %d descriptors open that the program does not hold, but only %d connection(s) were "
+                    "accepted and not yet pulled" % (k, unheld, conn - pulled))
+    if out[-2] != 0:
+        return ("%d accepted connection(s) still open after the incoming stream, every delivered stream and the "
+                "runtime were dropped (queued/unreaped descriptors leaked)" % out[-2])
+    if out[-1] != 0:
+        return "%d peer(s) never saw their connection closed after everything was dropped" % out[-1]
     return None
 
 
@@ -186,9 +221,21 @@ class C06(diffcheck.DiffProp):
             return accept_oracle(case, out)
         if k == 4:
             return timing_oracle(case, out)
+        if k == 5:
+            return multishot_oracle(case, out)
         return None
 
     def known(self, case, out, what):
+        if case[:2] == [5, 0] and out[:2] == [0, 5] and len(out) - 2 == 3 * len(case[2:]) + 2:
+            o = out[2:]
+            for k, op in enumerate(case[2:]):
+                ok, unheld, _ = o[3 * k:3 * k + 3]
+                prev = o[3 * (k - 1) + 1] if k > 0 else 0
+                # the runtime was dropped while accepted connections were still unreaped: nothing changed
+                # hands at that step and exactly those stay open
+                if op == 6 and ok == 1 and unheld >= 1 and unheld <= prev and o[-2] == unheld:
+                    return KNOWN_URING_DROP
+            return None
         out = out[2:] if out[:2] == [0, 3] else []
         if case[:2] == [3, 0] and out and len(out) == 3 * len(case[2:]) + 1:
             prog = case[2:]
